@@ -13,23 +13,28 @@ MANIFEST = {
             "tests on distinct variables, inside the branch every tested variable has exactly the variants its test admits; "
             "the else branch of a single test has the complement; the else branch of `if a && b ...` admits every variant; and "
             "after `end` EVERY variable has its pre-conditional type for EVERY condition (also one testing a variable several "
-            "times: the closures run last to first). Tie: single conditionals are run through ti and the branch types are "
-            "compared with the model by vm_compute; end to end, generated programs (1-3 union variables of 2-3 variants, "
+            "times: the closures run last to first). elsif chains (`chain`): after `end` every variable has its pre-chain type "
+            "for EVERY chain (any number of branches, any condition in each, with or without else; the dropped elsif closures "
+            "of the pinned code are a refuted variant), and for chains of positive single tests on the same or on different "
+            "variables branch i sees its variable as exactly the tested class and every other variable without what the earlier "
+            "branches took, the else branch what nobody took. Tie: single conditionals and elsif chains (2-4 branches, negated "
+            "tests, an && first condition, optional else) are run through ti and the types of every variable in every branch "
+            "and after `end` are compared with the model by vm_compute; end to end, generated programs (1-3 union variables of 2-3 variants, "
             "if/unless/else, && chains, repeated tests, elsif chains with and without an earlier && condition, nesting two "
             "deep, unrelated statements in the branches) are compared with exact set semantics in every branch and after "
             "every conditional.",
-    "note": "Trusted: Coq kernel + vm_compute; lib/narrowgen.py (set semantics of the tests). elsif chains and nesting are "
-            "covered by the end-to-end comparison only; `==` tests and `||` are not narrowed by ti and not generated.",
+    "note": "Trusted: Coq kernel + vm_compute; lib/narrowgen.py (set semantics of the tests). negated tests and && conditions inside elsif chains "
+            "are covered by the model tie, nesting by the end-to-end comparison only; `==` tests and `||` are not narrowed by ti and not generated.",
     "technique": "Coq proof (exactness and restoration on a state-machine model of the narrowing, induction over the condition); "
                  "correspondence by vm_compute against `ti` on single conditionals; end-to-end comparison with set semantics",
 }
 REQUIRES = ["Model/Narrow.v"]
 RULE = ("model tie: 1-3 variables, one conditional (if/unless, 1-3 conjuncts, optional else), dbtp of every variable in each "
-        "branch and after; end to end: 1-3 conditionals per program from 13 forms, nesting <= 2; non-trivial = a && chain, an "
+        "branch and after; chain tie: 1-3 variables, if + 1-3 elsif (+ else), tests on one or on several variables;  end to end: 1-3 conditionals per program from 14 forms, nesting <= 2; non-trivial = a && chain, an "
         "elsif chain or a nested conditional")
 TRUSTED = []
 ASSUMPTIONS = ["no branch assigns a tested variable", "tested classes are variants of the variable (a test for a foreign class admits nothing)"]
-PARTIAL = ["elsif chains and nesting: exploration only", "a positive test repeated on one variable in one && chain is outside the theorem"]
+PARTIAL = ["elsif chains with negated tests or && conditions: restoration proved, branch types by correspondence only", "nesting: exploration only", "a positive test repeated on one variable in one && chain is outside the theorem"]
 
 
 def run(src):
@@ -148,7 +153,86 @@ def part_model_tie(ctx, part):
     part.agreed += len(terms) - len(bad)
 
 
-PARTS = [part_model_tie, part_e2e]
+def part_chain_tie(ctx, part):
+    """if C0 / elsif C1 / ... / [else] / end: every variable in every branch and after `end`, ti against `chain true`"""
+    r = ctx.rng("chain")
+    cases = []
+    for _ in range(ctx.n(80, 600)):
+        vars_, setup = narrowgen.gen_vars(r, r.randint(1, 3))
+        env = dict(vars_)
+        names = [v for v, _ in vars_]
+        nbr = r.choice([2, 2, 3, 4])
+        same = r.random() < 0.4
+        v0 = r.choice(names)
+        conds = []
+        for b in range(nbr):
+            k = 2 if (b == 0 and len(names) >= 2 and r.random() < 0.2) else 1
+            picked = r.sample(names, k) if k > 1 else [v0 if same else r.choice(names)]
+            conds.append([(v, r.choice(env[v]), r.random() < 0.35) for v in picked])
+        with_else = r.random() < 0.6
+        lines = list(setup)
+        rows = []
+        for b, cond in enumerate(conds):
+            lines.append(("if " if b == 0 else "elsif ") + " && ".join(narrowgen.test_text(t) for t in cond))
+            rw = {}
+            for v in names:
+                lines.append("  dbtp %s" % v); rw[v] = len(lines)
+            rows.append(rw)
+        erow = {}
+        if with_else:
+            lines.append("else")
+            for v in names:
+                lines.append("  dbtp %s" % v); erow[v] = len(lines)
+        lines.append("end")
+        arow = {}
+        for v in names:
+            lines.append("dbtp %s" % v); arow[v] = len(lines)
+        cases.append((vars_, conds, with_else, "\n".join(lines) + "\n", rows, erow, arow))
+
+    outs = C.pmap(lambda c: run(c[3]), cases, par=8)
+    terms, kept = [], []
+    for (vars_, conds, with_else, src, rows, erow, arow), (x, got) in zip(cases, outs):
+        part.evaluations += 1
+        if x.timeout:
+            continue
+        part.nontrivial.add(src)
+        obs = []
+        untyped = False
+        def ob(tag, v, row):
+            nonlocal untyped
+            t = parse_type(got.get(row))
+            if t is None:
+                untyped = True
+                return
+            obs.append("(%d, %s, %s)" % (tag, C.coq_str(v), C.coq_list([C.coq_str(c) for c in t])))
+        for b, rw in enumerate(rows):
+            for v, _ in vars_:
+                ob(b, v, rw[v])
+        for v, _ in vars_:
+            if with_else:
+                ob(100, v, erow[v])
+            ob(200, v, arow[v])
+        if untyped:
+            part.count("untyped_row")
+        env = C.coq_list(["(%s, %s)" % (C.coq_str(v), C.coq_list([C.coq_str(c) for c in cl])) for v, cl in vars_])
+        def cond_term(cond):
+            return C.coq_list(["(Build_test %s %s %s)" % (C.coq_str(v), C.coq_str(c), C.coq_bool(n)) for v, c, n in cond])
+        terms.append("(%s, %s, %s, %s, %s)" % (cond_term(conds[0]), C.coq_list([cond_term(c) for c in conds[1:]]), C.coq_bool(with_else), env, C.coq_list(obs)))
+        kept.append(src)
+        part.sample({"branches": len(conds), "else": with_else,
+                     "variables_tested": len({t[0] for c in conds for t in c}), "negated": sum(1 for c in conds for t in c if t[2])})
+    fn = ("fun c => let '(c0, cs, he, e, obs) := c in let '(brs, ee, ea) := chain true c0 cs he e in "
+          "forallb (fun o => let '(tag, x, t) := o in "
+          "  let m := ty_of (if Nat.eqb tag 200 then ea else if Nat.eqb tag 100 then match ee with Some v => v | None => [] end "
+          "                  else nth tag brs []) x in "
+          "  match m with [] => true | _ => list_eqb String.eqb m t end) obs")
+    bad = corr.coq_mismatches(["Model.Narrow"], "list test * list (list test) * bool * env * list (nat * string * list string)", fn, terms, chunk=200)
+    for i in bad:
+        part.mismatches.append({"fn": "IfUnless.Evaluation (elsif chain)", "program": kept[i]})
+    part.agreed += len(terms) - len(bad)
+
+
+PARTS = [part_model_tie, part_chain_tie, part_e2e]
 
 
 def replay(path):
